@@ -297,7 +297,7 @@ func (h *harnessState) apiAllReturnedLocked() bool {
 
 // startAPI starts n goroutines calling one Program method; it returns once
 // every goroutine is about to make its call.
-func (r *pRun) startAPI(kind string, n, step int) {
+func (r *pRun) startAPI(kind string, n, step int, text ...string) {
 	h := r.h
 	var call func()
 	switch kind {
@@ -306,9 +306,18 @@ func (r *pRun) startAPI(kind string, n, step int) {
 	case "send":
 		call = func() { r.p.Send(userMsg{7777}) }
 	case "println":
-		call = func() { r.p.Println("x") }
+		txt := "x"
+		if len(text) > 0 && text[0] != "" {
+			txt = text[0]
+		}
+		call = func() { r.p.Println(txt) }
 	case "printf":
-		call = func() { r.p.Printf("%d", 1) }
+		if len(text) > 0 && text[0] != "" {
+			txt := text[0]
+			call = func() { r.p.Printf("%s", txt) }
+		} else {
+			call = func() { r.p.Printf("%d", 1) }
+		}
 	case "quit":
 		call = func() { r.p.Quit() }
 	case "kill":
@@ -448,7 +457,7 @@ func (r *pRun) step(i int, st pStep) bool {
 	case "sleep":
 		time.Sleep(time.Duration(st.Us) * time.Microsecond)
 	case "api":
-		r.startAPI(st.Kind, st.N, i)
+		r.startAPI(st.Kind, st.N, i, st.Label)
 	case "release-terminal":
 		// the application hands the terminal over itself (Program.ReleaseTerminal)
 		return pTimed(deadline, func() { _ = r.p.ReleaseTerminal() })
@@ -642,6 +651,9 @@ func runProgramScenario(sc *pScenario) (res pResult) {
 	res.Events = append([]pEvent{}, h.events...)
 	h.emu.Unlock()
 	res.Output = pToInts(out)
+	if sc.Writes {
+		res.Writes = h.out.Writes()
+	}
 	if r.ptyS != nil && !r.ptyHung {
 		t1, err := getTermios(r.ptyS)
 		if t0, ok := r.termios0.(*unix.Termios); ok && err == nil {
